@@ -1,15 +1,62 @@
 #!/usr/bin/env python3
 """C16 -- fixed-capacity containers match reference models, drop elements once."""
-import os, sys
+import json, os, sys, time
 sys.path.insert(0, os.path.dirname(os.path.dirname(os.path.abspath(__file__))))
 import vlib
 from vlib import VERIF
 
-CONTAINERS = ["queue"]
+CONTAINERS = ["queue", "vec", "str", "strz"]
+# exhaustive history length per container: (quick, thorough); bounded by the alphabet size
+MAXLEN = {"queue": (5, 6), "vec": (4, 5), "str": (3, 4), "strz": (4, 5)}
+# random histories per container: (cases quick, cases thorough, max ops quick, max ops thorough)
+RANDOM = {"queue": (400, 4000, 2000, 10000), "vec": (400, 4000, 2000, 10000), "str": (400, 4000, 2000, 10000),
+          "strz": (100, 1000, 200, 1000)}
+
+# Candidate defects of /repo found by this check and reported to the lead, who decides between a
+# fix: commit in /repo and an entry in known_findings.json (matched by the same key).  Until
+# then the check prints CANDIDATE-DEFECT for them (with a replay file) instead of VIOLATION.
+# Remove a key here as soon as it is adjudicated; anything not listed is a VIOLATION.
+PENDING_CANDIDATES = {
+    "string:retain-inverted":
+        "String::retain(f) removes the bytes for which f returns true; its doc (and std retain) say it keeps those. "
+        "history: C str heap u8 1 ; O push 97 = ok ; O retain 97 = ok ; O bytes = l (reference: l97)",
+    "string:static-full-zero-len-remove-panics":
+        "on a FULL StaticString a zero-length removal panics (remove_range writes data_mut()[CAPACITY], out of range): "
+        "remove_range(i,0), strip_prefix(b\"\"), strip_suffix(b\"\"). history: C str fixed u8 1 ; O push 97 = ok ; O stripp - = P (reference: b1)",
+    "string:missing-nul-terminator":
+        "as_bytes_with_nul()/as_c_str() is not NUL-terminated on memory that is not already zero: RelocatableString::init writes no "
+        "terminator (history: C str reloc u8 1 ; O nul = u170) and Polymorphic/RelocatableString filled to capacity never write data[capacity] "
+        "(history: C str heap u8 1 ; O push 97 = ok ; O nul = u170); reference: u0",
+}
 
 
-def classify(line):
-    """Key of a failing (spec-mismatching) history: used to match known findings."""
+def _ops(hist):
+    return [l for l in hist if l.startswith("O ")]
+
+
+def classify(hist, mismatch=""):
+    """Key of a failing (spec-mismatching) history: used to match known findings.
+    hist = lines of the case (header + ops as printed by the harness), mismatch = the driver's line."""
+    if not hist:
+        return None
+    hdr = hist[0].split()
+    kind, flavour = (hdr[1], hdr[2]) if len(hdr) >= 3 else ("?", "?")
+    ops = _ops(hist)
+    try:
+        k = int(mismatch.split(" op=")[1].split()[0])
+    except Exception:
+        k = len(ops)
+    cur = ops[k - 1].split() if 0 < k <= len(ops) else []
+    prev = ops[k - 2].split() if 1 < k <= len(ops) else []
+    name = cur[1] if len(cur) > 1 else ""
+    impl = cur[-1] if cur else ""
+    if kind == "str":
+        if name == "bytes" and prev and prev[1] == "retain":
+            return "string:retain-inverted"
+        if impl == "P" and flavour == "fixed" and ((name == "remover" and cur[3] == "0") or (name in ("stripp", "strips") and cur[2] == "-")):
+            return "string:static-full-zero-len-remove-panics"
+        if name == "nul" and flavour in ("heap", "reloc"):
+            return "string:missing-nul-terminator"
     return None
 
 
@@ -25,58 +72,86 @@ def run(ctx):
         return
     exe = os.path.join(tdir, "c16")
     driver = os.path.join(VERIF, "ocaml", "c16", "driver")
-    maxlen = 6 if ctx.thorough() else 5
     nsh = 16
-    jobs = []
+    th = ctx.thorough()
+    tot = {"cases": 0, "ops": 0, "distinct_nontrivial": 0, "mismatches_model": 0, "mismatches_spec": 0, "opcount": {}}
+    percont = {}
+    all_jobs = []
+    spec_mm, model_mm, failed = [], [], []
     for c in CONTAINERS:
+        maxlen = MAXLEN[c][1 if th else 0]
+        nq, nt, lq, lt = RANDOM[c]
+        jobs = []
         for sh_i in range(nsh):
             jobs.append(("exh:%s:%d" % (c, sh_i), [exe, "exh", c, str(maxlen), str(sh_i), str(nsh), str(ctx.seed)]))
-        nrand = 4000 if ctx.thorough() else 400
-        rlen = 10000 if ctx.thorough() else 2000
         for sh_i in range(nsh):
-            jobs.append(("rnd:%s:%d" % (c, sh_i), [exe, "rnd", c, str(rlen), str(sh_i), str(nsh), str(ctx.seed), str(nrand)]))
-    r = vlib.run_pipelines(jobs, driver)
+            jobs.append(("rnd:%s:%d" % (c, sh_i), [exe, "rnd", c, str(lt if th else lq), str(sh_i), str(nsh), str(ctx.seed), str(nt if th else nq)]))
+        t0 = time.time()
+        r = vlib.run_pipelines(jobs, driver)   # one call per container: each keeps its own mismatch lines
+        percont[c] = {"cases": r["cases"], "ops": r["ops"], "distinct_nontrivial": r["distinct_nontrivial"],
+                      "mismatches_model": r["mismatches_model"], "mismatches_spec": r["mismatches_spec"],
+                      "exhaustive_maxlen": maxlen, "wall_s": round(time.time() - t0, 1)}
+        for k in ("cases", "ops", "distinct_nontrivial", "mismatches_model", "mismatches_spec"):
+            tot[k] += r[k]
+        tot["opcount"].update(r["opcount"])
+        all_jobs += jobs
+        failed += r["failed_jobs"]
+        spec_mm += [m for m in r["mismatch_lines"] if "kind=spec" in m[2]]
+        model_mm += [m for m in r["mismatch_lines"] if "kind=model" in m[2]]
+    # construction with capacity 0 (one observation per container type and flavour)
+    rc, out0 = vlib.sh(exe + " obs cap0 0 0 1 1 2>/dev/null", timeout=120)
+    ctx.cov["capacity0_construction"] = [l[2:] for l in out0.split("\n") if l.startswith("Z ")]
     ctx.cov.update({
-        "evaluations": r["cases"], "distinct_nontrivial": r["distinct_nontrivial"],
-        "traces_validated_against_impl": r["cases"], "ops_executed": r["ops"],
-        "op_distribution": r["opcount"],
-        "rule": "exhaustive: every op sequence of length <= %d over the per-container alphabet, capacities 0..4, "
-                "storage flavours heap/inline/relocatable, element kinds drop-logging and Copy; random: seeded "
-                "fill/drain-biased histories up to %d ops, capacities up to 33. distinct = distinct (container, capacity, "
-                "op sequence) ignoring flavour; non-trivial = at least one element was stored" % (maxlen, 10000 if ctx.thorough() else 2000),
+        "evaluations": tot["cases"], "distinct_nontrivial": tot["distinct_nontrivial"],
+        "traces_validated_against_impl": tot["cases"], "ops_executed": tot["ops"],
+        "op_distribution": tot["opcount"], "per_container": percont,
+        "rule": "exhaustive: every op sequence of length <= per_container[c].exhaustive_maxlen over the per-container alphabet, capacities 0..4, "
+                "storage flavours heap/inline/relocatable (inline/relocatable flavours that cannot be constructed with capacity 0 are skipped there, see "
+                "capacity0_construction), drop-logging (and for the queue also Copy) elements; strings additionally one history per byte value 0..255; random: seeded "
+                "phase-biased histories up to %d ops, capacities up to 33, string bytes uniform over 0..255 with an ASCII bias. distinct = distinct (container, capacity, "
+                "op sequence) ignoring flavour; non-trivial = at least one element was stored" % (10000 if th else 2000),
         "exhaustive": False,
     })
-    # samples: first case of a few jobs
     samples = []
-    for lbl, argv in jobs[:1] + jobs[-1:]:
+    for lbl, argv in all_jobs[:1] + all_jobs[-1:]:
         c = vlib.extract_case(argv, driver, 40)
         if c:
             samples.append({"job": lbl, "case": c[:12]})
     ctx.cov["samples"] = samples
-    for lbl, cmd, rc, tail in r["failed_jobs"]:
+    for lbl, cmd, rc, tail in failed:
         ctx.violation("correspondence job failed (harness or driver crashed): " + lbl, {"cmd": cmd, "rc": rc, "tail": tail}, no_input=True)
     # mismatches: spec mismatch = the property fails on a concrete history (replay = that history)
-    spec_mm = [m for m in r["mismatch_lines"] if "kind=spec" in m[2]]
-    model_mm = [m for m in r["mismatch_lines"] if "kind=model" in m[2]]
     reported = set()
-    for lbl, cmd, line in spec_mm[:20]:
+    candidates = {}
+    known_keys = {k.get("key") for k in ctx.known if k.get("status", "known") == "known"}
+    nviol = 0
+    for lbl, cmd, line in spec_mm:
         case_no = int(line.split("case=")[1].split()[0])
         hist = vlib.extract_case(cmd.split(), driver, case_no)
-        key = classify(hist)
-        if (key, hist[0] if hist else "") in reported:
+        key = classify(hist, line)
+        if key in reported:
             continue
-        reported.add((key, hist[0] if hist else ""))
-        ctx.violation("implementation differs from the reference container: " + line,
-                      {"history": hist, "harness_cmd": cmd, "mismatch": line,
-                       "how_to_rerun": cmd + " | " + driver}, key=key)
-        if len(ctx.violations) >= 5:
-            break
-    if model_mm and not spec_mm:
+        reported.add(key)
+        body = {"history": hist, "harness_cmd": cmd, "mismatch": line, "how_to_rerun": cmd + " | " + driver}
+        if key in PENDING_CANDIDATES and key not in known_keys:
+            d = os.path.join(VERIF, "replays", "C16")
+            os.makedirs(d, exist_ok=True)
+            path = os.path.join(d, "candidate-" + key.replace(":", "-") + ".json")
+            body.update({"property": "C16", "key": key, "what": PENDING_CANDIDATES[key], "status": "candidate, reported to the lead, not adjudicated"})
+            open(path, "w").write(json.dumps(body, indent=1, sort_keys=True))
+            print("CANDIDATE-DEFECT: property=C16 key=%s replay=%s %s" % (key, path, PENDING_CANDIDATES[key]), flush=True)
+            candidates[key] = {"what": PENDING_CANDIDATES[key], "replay": path, "first_history": hist[:12]}
+            continue
+        if nviol < 5:
+            if ctx.violation("implementation differs from the reference container: " + line, body, key=key):
+                nviol += 1
+    ctx.cov["candidate_defects_pending"] = candidates
+    if model_mm:
         lbl, cmd, line = model_mm[0]
         case_no = int(line.split("case=")[1].split()[0])
         hist = vlib.extract_case(cmd.split(), driver, case_no)
-        ctx.violation("correspondence model<->implementation broken (concrete model disagrees, reference agrees): " + line,
-                      {"obligation": "G3 correspondence of model/RingQueue.v etc. with the implementation", "history": hist, "harness_cmd": cmd}, no_input=True)
+        ctx.violation("correspondence model<->implementation broken (the concrete model disagrees with the implementation): " + line,
+                      {"obligation": "G3 correspondence of coq/model/{RingQueue,Vec,Str,SlotMap,FlatMap}.v with the implementation", "history": hist, "harness_cmd": cmd}, no_input=True)
     if not proof_ok:
         if not ctx.violations:
             ctx.violation("proof obligation no longer checks: %s" % ctx.broken,
